@@ -552,7 +552,8 @@ class AdaptedTree1dInit(FunctionContract):
 
 class Neighbours(FunctionContract):
     """left_point / right_point for every coordinate type: per axis k, the neighbouring state ON AXIS k (clamped at the
-    ends); axes may differ from one another (credit grids) but have equal length, as every constructor produces."""
+    ends of THAT axis); axes may differ from one another in their states (credit grids) and in their number of states (a
+    CTMCGrid built from the caller's own axes)."""
     prop = "C01"
     cases = tuple((fn, kind) for fn in ("left_point", "right_point") for kind in ("int", "Coordinate1D", "CoordinateND2", "CoordinateND3"))
 
@@ -568,11 +569,8 @@ class Neighbours(FunctionContract):
         fn, kind = case
         d = int(kind[-1]) if kind.startswith("CoordinateND") else 1
         axes = [vc.seq(f"axis{k}", "r", min_len=3) for k in range(d)]
-        n = axes[0].length
-        for a_ in axes[1:]:
-            vc.assume(a_.length == n)
         cs = vc.ints("c", d)
-        vc.assume(And(*[And(c >= 0, c < n) for c in cs]))
+        vc.assume(And(*[And(c >= 0, c < a_.length) for c, a_ in zip(cs, axes)]))       # every axis has its OWN length
         grid = vc.obj(SP + "CTMCGrid", axes=axes, dimension=d)
         coord = cs[0] if kind == "int" else (vc.new(GR + "Coordinate1D", cs[0]) if kind == "Coordinate1D" else vc.new(GR + "CoordinateND", list(cs)))
         vc.ghost.update(axes=axes, cs=cs, fn=fn, d=d, kind=kind)
@@ -582,8 +580,7 @@ class Neighbours(FunctionContract):
         from pyvc import ctx
         g = ctx.PATH.ghost
         axes, cs, fn, d = g["axes"], g["cs"], g["fn"], g["d"]
-        n = axes[0].length
-        want = [ax.raw(smax(c - 1, 0)) if fn == "left_point" else ax.raw(smin(c + 1, n - 1)) for ax, c in zip(axes, cs)]
+        want = [ax.raw(smax(c - 1, 0)) if fn == "left_point" else ax.raw(smin(c + 1, ax.length - 1)) for ax, c in zip(axes, cs)]
         if g["kind"].startswith("CoordinateND"):
             ok = isinstance(result, tuple) and len(result) == d
             return {"one-value-per-axis": ok, "neighbour-on-the-same-axis": And(*[r == w for r, w in zip(result, want)]) if ok else False}
@@ -596,9 +593,9 @@ class Neighbours(FunctionContract):
         if not kind.startswith("CoordinateND"):
             return None
         d = int(kind[-1])
-        axes = [np.array([-1.0 - k, -0.5 - 0.1 * k, -0.25, 0.0, 0.25, 0.6 + 0.1 * k, 2.0 + k]) for k in range(d)]
+        axes = [np.array([-1.0 - k, -0.5 - 0.1 * k, -0.25, 0.0, 0.25, 0.6 + 0.1 * k, 2.0 + k] + [3.0 + k + j for j in range(2 * k)]) for k in range(d)]
         g = CTMCGrid(h=0.25, origin_coordinate=3, axes=axes)
-        for cs in ([1] * d, list(range(1, d + 1)), [6] * d, [0] * d):
+        for cs in ([1] * d, list(range(1, d + 1)), [6] * d, [0] * d, [len(ax) - 1 for ax in axes], [len(ax) - 2 for ax in axes]):
             got = getattr(g, fn)(Coordinates(cs))
             want = tuple(ax[max(c - 1, 0)] if fn == "left_point" else ax[min(c + 1, len(ax) - 1)] for ax, c in zip(axes, cs))
             if tuple(float(x) for x in got) != tuple(float(x) for x in want):
